@@ -440,6 +440,7 @@ class Model:
             return e
         ar = c.members[u.nick]
         if not is_halfop(ar):
+            e.props.add("C08")  # ranks given and taken by MODE are "enforced by ... KICK ... from then on"
             e.need("482", p0=u.nick, p1=cn)
             e.shape = "kick:lowrank"
             e.cover.append(("kick", "low:" + "".join(sorted(ar))))
@@ -453,6 +454,8 @@ class Model:
                 shapes.append("dup")
                 continue
             vr = c.members.get(v)
+            if vr:
+                e.props.add("C08")  # the victim's rank against the actor's decides
             if vr is None:
                 e.need("441", p0=u.nick, p1=v, p2=cn)
                 shapes.append("absent")
@@ -723,6 +726,7 @@ class Model:
         target = cmd["target"]
         groups = cmd["modes"]
         if target != u.nick:
+            e.props.add("C02")  # a connection changes only the user it registered itself
             if target in self.users:
                 e.need("502", p0=u.nick)
                 e.cover.append(("umode", "foreign"))
